@@ -217,6 +217,7 @@ func (c clientT) key() []byte {
 }
 
 var inPlaceReported, sumReported bool
+var exhaustiveDone int
 
 type savedFile struct {
 	text     []byte
@@ -684,6 +685,14 @@ func histories(r *lib.Run, rng *lib.Rand) (files []savedFile) {
 			}
 		}
 		sv2.close()
+		// continuation histories after the restart, each on a fresh session, against the DHCP cluster's model
+		if len(b1.bindings) >= 2 && len(stale) == 0 {
+			exh := r.Thorough() && exhaustiveDone < 2
+			if exh {
+				exhaustiveDone++
+			}
+			continuations(r, rng.Fork(), c, cap2, text, clients, exh)
+		}
 		if len(ackedSeen) >= 2 && len(files) < 12 && sameBindings(b1.bindings, ackedSeen) && sameCapture {
 			files = append(files, savedFile{text: text, c: c, capTok: capTok, bindings: b1.bindings})
 		}
